@@ -165,16 +165,19 @@ class Engine(ExprMixin, CallMixin, ContractMixin, BuiltinMixin, StmtMixin, LoopM
         pc = list(st.pc)
         g = _instantiate_exists(g, pc)
         g, skolems = _skolemize(g)
+        # engine-side instantiation: every universally quantified fact of the path condition is instantiated
+        #  - at the skolem constants of the goal (valid instances; the facts stay too),
+        #  - at the loop indices the goal talks about
+        # (instantiating also at the object references the goal reads through was tried: it makes every query heavier and
+        #  the verdicts no more stable)
+        terms = list(skolems)
         if skolems:
-            # engine-side instantiation: every universally quantified fact of the path condition is
-            # instantiated at the skolem constants of the goal (valid instances; the facts stay too)
-            terms = list(skolems)
-            # ... and at the loop indices the goal talks about (any instance is sound; these are the useful ones)
             terms += [c for name, c in sorted(_int_consts([g]).items()) if name.startswith("_i_")][:3]
             if getattr(self, "needs_shifted_instances", False):
                 terms += [q - 1 for q in skolems]  # index-shifted instances (a general list.insert shifts by one)
             if getattr(self, "needs_plus_instances", False):
                 terms += [q + 1 for q in skolems]  # (list.pop(0) shifts the other way)
+        if terms:
             for h in list(pc):
                 if _has_pos_forall(h, 0):
                     pc.append(_instances(h, terms, 0))
